@@ -155,7 +155,8 @@ where
                 let amount = amount.min(MAX_HEADERS_AMOUNT_RESPONSE);
                 let mut responses = vec![];
 
-                for i in origin..origin + amount {
+                // `origin` comes from the peer and can be as large as `u64::MAX`
+                for i in origin..origin.saturating_add(amount) {
                     match store.get_by_height(i).await {
                         Ok(h) => {
                             if responses.is_empty() {
